@@ -239,7 +239,7 @@ func (w *World) NewLab(hooks []HookSpec, userVars map[string]string) (*Lab, erro
 		return nil, err
 	}
 	l := &Lab{W: w, Env: env, ID: id.String(), hooks: map[string]*hookState{}, byTaskID: map[string]*hookState{}, k: -1,
-		PollInterval: 100 * time.Microsecond, Watchdog: 20 * time.Second}
+		PollInterval: 100 * time.Microsecond, Watchdog: 60 * time.Second}
 	for _, h := range hooks {
 		hs := &hookState{spec: h}
 		hs.tname, hs.tw = ParseExpr(h.Trigger)
@@ -848,7 +848,8 @@ func (l *Lab) control(done chan error, stale map[int]bool) error {
 			l.mu.Unlock()
 		}
 		if time.Since(start) > l.Watchdog {
-			l.anomaly("watchdog: driven call did not return; releasing all gates")
+			l.anomaly(fmt.Sprintf("watchdog: driven call did not return; releasing all gates (driver found=%v parked-on-hooks=%v, records stable=%v, busy=%d, calls unsettled=%d, moving: %s)",
+				found, blocked, stable, busy, callsUnsettled(gs), movingSummary(gs)))
 			l.mu.Lock()
 			for _, g := range l.openGates() {
 				l.release(g)
